@@ -249,10 +249,17 @@ def real_history(ctx, idx):
                     srv.pos_request("textDocument/definition", "file://%s/main.oal" % root, 0, 0)
                     srv.drain(0.05)
                     steps.append("request")
-                srv.close_doc(uri)
-                opened.discard(name)
-                texts[name] = FILES[name]
-                steps.append("close " + name)
+                if idx % 4 == 2:
+                    # ... or repaired by the inverse edit instead of being closed
+                    t2 = t[:pos] + e[2] + t[pos + len(e[1]):]
+                    b = len(t2[:pos].encode("utf8"))
+                    srv.change(uri, [{"range": lspws.rng_of(t2, b, b + len(e[2].encode("utf8"))), "text": e[1]}])
+                    steps.append("edit %s: %r -> %r" % (name, e[2], e[1]))
+                else:
+                    srv.close_doc(uri)
+                    opened.discard(name)
+                    texts[name] = FILES[name]
+                    steps.append("close " + name)
         got = snapshot(srv, root, texts)
         alive = srv.alive()
     finally:
